@@ -855,6 +855,18 @@ pub fn gen_case<'a>(w: &Workload<'a>, workload: &str, seed: u64, index: u64) -> 
 				issuer,
 			})
 		},
+		// artefacts beyond 64 KiB and around the 127/128, 255/256 and 65535/65536 length-octet steps
+		"huge" => {
+			if index >= 6 {
+				return None;
+			}
+			let n = [3000usize, 2731, 2732, 5, 11, 4100][index as usize];
+			spec.sans = (0..n).map(|i| SanSpec::Dns(format!("host-{:06}.example.com", i))).collect();
+			if index == 3 {
+				spec.subject = vec![AttrSpec { ty: DnTy::Org, kind: StrKind::Utf8, text: "x".repeat(65_500) }];
+			}
+			Some(pick_case(w, id, spec, &mut rng, true))
+		},
 		"random" => {
 			let spec = gen_params(&mut rng);
 			Some(pick_case(w, id, spec, &mut rng, true))
@@ -863,7 +875,7 @@ pub fn gen_case<'a>(w: &Workload<'a>, workload: &str, seed: u64, index: u64) -> 
 	}
 }
 
-pub const WORKLOADS: [&str; 7] = ["lattice", "ku", "prefix", "pathlen", "kid", "keys", "random"];
+pub const WORKLOADS: [&str; 8] = ["lattice", "ku", "prefix", "pathlen", "kid", "keys", "huge", "random"];
 
 /// Run the certificate workload for one property.
 pub fn run(ctx: &Ctx, prop: Prop, w: &Workload<'_>, n_random: u64) {
